@@ -302,4 +302,19 @@ PROPS = {
                 "TestPropStress: 2-12 readers x 20-80 request rounds (4 probes each, 3 protocols), writer op lists and jitter drawn; non-trivial = at least one request overlapped a writer operation (counted).",
         "assumptions": ["conn-backed methods may answer 200, 404 or 501 while their connection is being registered or dropped"],
     },
+    "C13": {
+        "pkg": "c13",
+        "stages": [{"run": "^TestPropInterleave$", "quick": (1500, 4), "thorough": (20000, 16), "timeout": {"quick": 900, "thorough": 5400}},
+                   {"run": "^TestPropStress$", "quick": (6, 4), "thorough": (60, 16), "race": True, "timeout": {"quick": 900, "thorough": 5400}}],
+        "replay_race": True,
+        "technique": "property-based testing (rapid): (a) harness-owned interleavings of 2-4 calls at message granularity with self-describing payloads re-verified after the other calls ran; (b) seeded mixed-protocol stress with injected faults under the Go race detector",
+        "level_text": "(a) Handlers park before every RecvMsg/SendMsg and rapid draws the release order, protocol/codec/compression per call and payload sizes around the buffer-pool thresholds; "
+                      "every message a handler holds must still verify (id, sequence, checksum-derived filler) after the other calls completed, and every response must verify against its own request. "
+                      "(b) 8-32 workers x 20-60 calls over gRPC/gRPC-web/HTTP JSON+protobuf (identity and gzip), unary, HttpBody passthrough and a proxied method, with injected body-read failures, "
+                      "under -race; per-call echo equality. Exploration; (b) samples schedules.",
+        "level_note": "(a) is deterministic (only one call runs between two parks) and targets 'buffer returned to the pool while still referenced' and pooled decompressor reuse; (b) relies on the Go scheduler and the race detector.",
+        "rule": "TestPropInterleave: 2-4 bidi echo calls x 1-4 messages with filler sizes from {0,1,10,20,25,63,64,65,100,1000,1024,...,5000}, receive limit default/2048/1200, release order drawn; non-trivial = "
+                ">=2 calls were parked simultaneously and a pooled-size payload was present. TestPropStress: non-trivial = measured peak concurrency >= 4 and >= 1 injected fault.",
+        "assumptions": ["response compression is unreachable in the pinned tree, so the gzip-writer pool is only exercised through gRPC per-message compression"],
+    },
 }
